@@ -138,4 +138,43 @@ static inline _Bool spa_walk_ok(struct vec_vec_U P, U_t i, U_t j)
 }
 static inline _Bool spa_D_same(struct vec_vec_I a, struct vec_vec_I b) { return spa_D_eq_except(a, b, XT_N, XT_N, 0); }
 static inline _Bool spa_P_same(struct vec_vec_U a, struct vec_vec_U b) { return spa_P_eq_except(a, b, XT_N, XT_N, 0); }
+/* ---- hop counts (ghost xt_H): H[i][j] = number of edges of the shortest path that the predecessors of row i spell out to j.
+ * hops_ok:  P[i][j] == i  <=>  H[i][j] == 1,  otherwise H[i][j] == H[i][P[i][j]] + 1 and that prefix is finite.
+ * It makes the predecessor rows trees: the walk back from j has strictly decreasing hop counts, visits pairwise different
+ * time points and therefore reaches i within XT_N - 1 hops (lemma job idl.hops_imply_walks). */
+struct vec_vec_U xt_H;
+static inline _Bool spa_hops_ok(struct vec_vec_I D, struct vec_vec_U P, struct vec_vec_U H)
+{
+  if (H.n != XT_N) return 0;
+  for (U_t i = 0; i < XT_N; i++)
+  {
+    if (H.e[i].n != XT_N) return 0;
+    for (U_t j = 0; j < XT_N; j++)
+      if (i != j && D.e[i].e[j] != XT_INF)
+      {
+        U_t k = P.e[i].e[j];
+        if (k >= XT_N || k == j || H.e[i].e[j] < 1) return 0;
+        if (k == i) { if (H.e[i].e[j] != 1) return 0; }
+        else if (D.e[i].e[k] == XT_INF || (WIDE_t)H.e[i].e[j] != (WIDE_t)H.e[i].e[k] + 1) return 0;
+      }
+  }
+  return 1;
+}
+/* the hop counts after the edge step from --dist--> to: an improved pair goes i ~> from -> to ~> j, the others keep theirs */
+static inline struct vec_vec_U spa_H_step(struct vec_vec_I D0, struct vec_vec_I D1, struct vec_vec_U H, U_t from, U_t to)
+{
+  struct vec_vec_U R = H;
+  for (U_t i = 0; i < XT_N; i++)
+    for (U_t j = 0; j < XT_N; j++)
+      if (i != j && D1.e[i].e[j] != D0.e[i].e[j])
+        R.e[i].e[j] = (U_t)((i == from ? 0 : H.e[i].e[from]) + 1 + (to == j ? 0 : H.e[to].e[j]));
+  return R;
+}
+static inline _Bool spa_all_walks_ok(struct vec_vec_I D, struct vec_vec_U P)
+{
+  for (U_t i = 0; i < XT_N; i++)
+    for (U_t j = 0; j < XT_N; j++)
+      if (i != j && D.e[i].e[j] != XT_INF && !spa_walk_ok(P, i, j)) return 0;
+  return 1;
+}
 #endif
